@@ -13,6 +13,8 @@ SEEDED = os.path.join(VERIF, "seeded")
 INFO = {
  "C01_a": ("getLabelIdxOfKey merged into `int32(word+1)` with word a byte: 0xff wraps to the end-of-key slot", "a 257-bit node on the path and a branching byte of exactly 0xff (suite keys are 7-bit ASCII)"),
  "C01_b": ("newVLenArray decides fixed-size by `totalSize == lastSize*count` instead of per-element equality", "variable-width encoder whose retained value sizes average to the size of the last value"),
+ "C02_a": ("same change as C01_b (newVLenArray width decision from aggregates)", "String16 values with encoded widths 3,5,4 and de-duplication on"),
+ "C02_b": ("encodeValues re-uses the previous record's encoded bytes when the raw value is Go-== to the previous one", "float values with adjacent runs of +0.0 and -0.0 (== but different bits), bit-exact comparison"),
  "C04_a": ("getIthLeafBytes fast path slices Leaves.Bytes at ith*FixedSize, ignoring the presence bitmap", "Complete trie scanned with values, an encoder that emits empty values, at least one empty value"),
  "C04_b": ("ScanFromTo returns early when start >= end", "closed single-point range [k,k] (both bounds inclusive); also skips the refusal on non-Complete tries"),
  "C05_a": ("initLevels keeps st.levels when the new trie is empty and reslices it otherwise", "Unmarshal(large) then Unmarshal(empty) on one instance without Reset, observed through Stat"),
